@@ -9,6 +9,7 @@ verus! {
 //@enum BSVErrors @ src/errors/mod.rs
 //@enum SigningHash @ src/ecdsa/mod.rs clone copy partialeq eq
 //@include shims/asref.rs
+//@include shims/codecs.rs
 //@include shims/k256.rs
 pub trait ToHex { fn to_hex(&self) -> String; }
 impl ToHex for Vec<u8> {
@@ -22,6 +23,7 @@ impl ToHex for [u8] {
 impl PublicKey {
 //@fn PublicKey::from_bytes_impl
 //@fn PublicKey::from_bytes
+//@fn PublicKey::from_hex_impl
 //@fn PublicKey::from_encoded_point
 //@fn PublicKey::to_bytes_impl
 //@fn PublicKey::to_compressed_impl
